@@ -897,6 +897,8 @@ def gen_value_e2e(rng, tier):
     texts += [t for t, _, _ in plain[: (14 if first else 150)]]
     for _ in range(20 if first else 250):
         texts.append(g_value_text(rng))
+    tpl = dict(LIT_POSITIONS)
+    sibling = {t: tpl[pos].replace("@", "'pizza'") for t, kind, pos in literal_positions() if kind not in PLAIN_KINDS}
     out = []
     for i, text in enumerate(texts):
         # every text in the plain value conversation; the conversations that utter / copy / interpolate the value later, and the one
@@ -907,6 +909,10 @@ def gen_value_e2e(rng, tier):
                 ps = msgpos if mode == "v2_value2" else [pos]
                 for p in ps:
                     resp[p] = text
+                if mode == "v2_value2" and (i // 6) % 2 == 1 and sibling.get(text):
+                    # the first reach of the statement gets the PLAIN literal of the same shape (same position, a str atom): what a cache
+                    # keyed by the shape / type / length of the value would remember for the second reach
+                    resp[ps[0]] = sibling[text]
                 out.append({"kind": "e2e", "mode": mode, "turns": turns, "llm": resp, "fallback": fb, "pos": list(ps), "msgpos": msgpos, "value": True})
     return out
 
